@@ -16,6 +16,135 @@ LIB_TRANSFORMS = {"re.sub": 2, "re.subn": 2, "rmspace.format_str": 0, "textwrap.
                   "black.format_str": 0, "compactify.format_code": 0}
 
 
+# ------------------------------------------------------------------------------------------------ (iv) the tree fence
+def _is_tree_comparison(prog: Program, f: Func) -> bool:
+    """f(a, b) answers whether the texts a and b have the same syntax tree: it returns an equality of two ast.dump(..) whose
+    arguments derive from a and from b (through ast.parse / a repository helper that parses)."""
+    if len(f.posparams) < 2:
+        return False
+    a, b = f.posparams[:2]
+
+    def source_of(e: ast.AST, depth: int = 0) -> Set[str]:
+        out = set()
+        for n in ast.walk(e):
+            if isinstance(n, ast.Name):
+                if n.id in (a, b):
+                    out.add(n.id)
+                elif depth < 3:
+                    for _st, v in assignments(f, n.id):
+                        if v is not None:
+                            out |= source_of(v, depth + 1)
+        return out
+    for r in walk_own(f.node):
+        if not isinstance(r, ast.Return) or r.value is None:
+            continue
+        for c in ast.walk(r.value):
+            if isinstance(c, ast.Compare) and len(c.ops) == 1 and isinstance(c.ops[0], ast.Eq):
+                sides = [c.left, c.comparators[0]]
+                if all(isinstance(x, ast.Call) and norm(x.func) == "ast.dump" and x.args for x in sides):
+                    srcs = [source_of(x.args[0]) for x in sides]
+                    if {frozenset(srcs[0]), frozenset(srcs[1])} == {frozenset({a}), frozenset({b})}:
+                        return True
+    return False
+
+
+def _fenced(prog: Program, fn: Func) -> Optional[str]:
+    """The function hands back a text other than its own text parameter only under a positive tree comparison of the two:
+    returns the name of the comparison, else None."""
+    params = [p for p in fn.posparams]
+    if not params:
+        return None
+    pa = None
+    fence = None
+    rets = [r for r in walk_own(fn.node) if isinstance(r, ast.Return) and r.value is not None]
+    if not rets:
+        return None
+    for r in rets:
+        value = r.value.elts[0] if isinstance(r.value, ast.Tuple) and r.value.elts else r.value     # (text, ...) results: the text comes first
+        if isinstance(value, ast.Name) and value.id in params:
+            continue                      # the text as it came
+        if not isinstance(value, ast.Name):
+            return None
+        pa = pa or PathAnalysis(prog, fn)
+        found = None
+        for c in prog.calls_in(fn):
+            rr = prog.resolve_call(c.func, fn.mod, fn)
+            if rr and rr[0] == "fn" and len(c.args) >= 2 and isinstance(c.args[0], ast.Name) and c.args[0].id in params \
+                    and norm(c.args[1]) == value.id and _is_tree_comparison(prog, rr[1]):
+                # the comparison was positive - or the text IS the compared input (`v == p or same_tree(p, v)`)
+                goal = ast.parse(f"({norm(c)}) or ({value.id} == {c.args[0].id})", mode="eval").body
+                ok, _why = pa.holds_at(r, lambda w, goal=goal: pa.formula(goal, w, True))
+                if ok:
+                    found = rr[1].node.name
+        if found is None:
+            return None
+        fence = found
+    return fence
+
+
+def _only_parsed(fn: Func, c: ast.Call) -> bool:
+    """The transformed text is never a result: the variable that receives it is used as the argument of a parser only."""
+    host = parent(c)
+    while host is not None and not isinstance(host, (ast.Assign, ast.For, ast.stmt)):
+        host = parent(host)
+    var = None
+    if isinstance(host, ast.Assign) and isinstance(host.targets[0], ast.Name):
+        var = host.targets[0].id
+    elif isinstance(host, ast.For) and isinstance(host.target, ast.Name) and any(x is c for x in ast.walk(host.iter)):
+        var = host.target.id
+    if var is None:
+        return False
+    loads = [n for n in walk_own(fn.node) if isinstance(n, ast.Name) and n.id == var and isinstance(n.ctx, ast.Load)]
+    return bool(loads) and all(isinstance(parent(n), ast.Call) and norm(parent(n).func) in ("ast.parse", "core.parse", "parse", "compile") and n in parent(n).args
+                               for n in loads)
+
+
+def _callers_fence(prog: Program, fn: Func, reach) -> Optional[str]:
+    """Every call of fn from a function on the formatting path binds the text result to a name that is used only (a) as the second
+    argument of a tree comparison and (b) under that comparison being true.  -> the callers, else None."""
+    callers = []
+    for g in prog.funcs.values():
+        if g.key not in reach:
+            continue
+        for c in prog.calls_in(g):
+            r = prog.resolve_call(c.func, g.mod, g)
+            if not (r and r[0] == "fn" and r[1].key == fn.key):
+                continue
+            st = parent(c)
+            if not isinstance(st, ast.Assign):
+                return None
+            t = st.targets[0]
+            if isinstance(t, ast.Tuple) and t.elts and isinstance(t.elts[0], ast.Name):
+                var = t.elts[0].id
+            elif isinstance(t, ast.Name):
+                var = t.id
+            else:
+                return None
+            if var in g.all_params:
+                return None
+            pa = PathAnalysis(prog, g)
+            comparisons = []
+            for k in prog.calls_in(g):
+                rr = prog.resolve_call(k.func, g.mod, g)
+                if rr and rr[0] == "fn" and len(k.args) >= 2 and norm(k.args[1]) == var and _is_tree_comparison(prog, rr[1]):
+                    comparisons.append(k)
+            if not comparisons:
+                return None
+            for use in walk_own(g.node):
+                if isinstance(use, ast.Name) and use.id == var and isinstance(use.ctx, ast.Load) and use.lineno >= st.lineno:
+                    a_, in_test = parent(use), False
+                    child = use
+                    while a_ is not None and not isinstance(a_, ast.stmt):
+                        child, a_ = a_, parent(a_)
+                    if isinstance(a_, (ast.If, ast.While)) and child is a_.test:
+                        continue                  # read by the test itself
+                    goals = [ast.parse(f"({norm(k)}) or ({var} == {norm(k.args[0])})", mode="eval").body for k in comparisons]
+                    if not any(pa.holds_at(use, lambda w, goal=goal: pa.formula(goal, w, True))[0] for goal in goals):
+                        return None
+            callers.append(g.fq)
+    return ", ".join(sorted(set(callers))) if callers else None
+
+
 def _lib_name(prog: Program, fn: Func, call: ast.Call) -> Optional[str]:
     d = prog.dotted(call.func)
     if not d:
@@ -27,7 +156,7 @@ def _lib_name(prog: Program, fn: Func, call: ast.Call) -> Optional[str]:
     return d
 
 
-LATER_RULES = ' Later rules: R11.3 also demands that restored spellings are drawn from a collection validated against the value; (R11.4) the minimum indentation over all lines is only used in a dedent/indent inverse pair.'
+LATER_RULES = ' Later rules: R11.3 also demands that restored spellings are drawn from a collection validated against the value; (R11.4) the minimum indentation over all lines is only used in a dedent/indent inverse pair; R11.1 (iv) a token-blind stage is accepted when its result is used only under a positive comparison of the syntax trees of input and result; (R11.5) the wrapped code of a statement is used only under that comparison.'
 
 
 def check(prog: Program, tier: str) -> Result:
@@ -56,6 +185,26 @@ def check(prog: Program, tier: str) -> Result:
     reach = CallGraph(prog).reachable([("main", "format_code")])
     n_calls = 0
     seen_keys: Set[str] = set()
+    fences: Dict[Tuple[str, str], Optional[str]] = {}
+    # (iv) stages applied through a fencing helper: F(stage, text) calls stage(text) and returns it only under the tree comparison
+    for fn in prog.funcs.values():
+        if fn.key not in reach:
+            continue
+        for c in prog.calls_in(fn):
+            r = prog.resolve_call(c.func, fn.mod, fn)
+            if not (r and r[0] == "fn" and len(c.args) >= 2):
+                continue
+            helper = r[1]
+            applies_param = any(isinstance(x.func, ast.Name) and x.func.id in helper.posparams and len(x.args) == 1 and isinstance(x.args[0], ast.Name)
+                                and x.args[0].id in helper.posparams for x in prog.calls_in(helper))
+            if not applies_param:
+                continue
+            fence = fences.setdefault(helper.key, _fenced(prog, helper))
+            n_calls += 1
+            stage = norm(c.args[0])
+            res.decide(bool(fence), "R11.1", fn.loc(c), fn.fq, f"{helper.node.name}({stage}, ..) # a text stage applied through a helper",
+                       f"literal-aware (iv): {helper.node.name}() uses the result of the stage only when {fence}() found the same syntax tree" if fence else
+                       f"{helper.node.name}() applies a text stage to the whole module text and returns the result without comparing the trees")
     for fn in prog.funcs.values():
         if fn.key not in reach:
             continue
@@ -81,6 +230,14 @@ def check(prog: Program, tier: str) -> Result:
             if construct in seen_keys and False:
                 continue
             seen_keys.add(construct)
+            if _only_parsed(fn, c):
+                res.ok("R11.1", fn.loc(c), fn.fq, construct, "the transformed text is only parsed (a comparison of trees), it is no result", trivial=True)
+                continue
+            fence = fences.setdefault(fn.key, _fenced(prog, fn))
+            if fence:
+                res.ok("R11.1", fn.loc(c), fn.fq, construct,
+                       f"literal-aware (iv): the function returns the transformed text only when {fence}() found the same syntax tree as for its input, else the input")
+                continue
             if callee in ("textwrap.dedent", "textwrap.indent"):
                 ok, why = _inverse_pair(prog, tf, fn, kinds, c, callee)
                 res.decide(ok, "R11.1", fn.loc(c), fn.fq, construct, why)
@@ -100,9 +257,15 @@ def check(prog: Program, tier: str) -> Result:
                 if not _flows_to_text_result(fn, n):
                     continue
                 n_calls += 1
-                res.undecided("R11.1", fn.loc(n), fn.fq, f"line round trip ''.join({name})",
-                              f"the text is split into physical lines, lines are selected by {selective}, and joined back; token-blind, but whether a "
-                              "whitespace-only line *of a literal* is ever selected away depends on the line diff of two runtime texts (no witness found): not judged")
+                fenced_by = _callers_fence(prog, fn, reach)
+                if fenced_by:
+                    res.ok("R11.1", fn.loc(n), fn.fq, f"line round trip ''.join({name})",
+                           f"literal-aware (iv): token-blind, but every caller on the formatting path ({fenced_by}) uses the result only when the tree comparison "
+                           "found the same syntax tree as before")
+                    continue
+                res.bad("R11.1", fn.loc(n), fn.fq, f"line round trip ''.join({name})",
+                        f"the text is split into physical lines, lines are selected by {selective}, and joined back; token-blind: a whitespace-only line of a multi-line "
+                        "literal is selected away or re-inserted like any other (seeded/existing_round3/C11/existing11.py shows a pair of texts), and no caller compares the trees")
     # literal-aware stages (listed, with the idiom that discharges them)
     _literal_aware(prog, res, tf, reach)
     res.floors["R11.1"] = 8
@@ -110,8 +273,10 @@ def check(prog: Program, tier: str) -> Result:
     res.floors["R11.2"] = 1
     _r11_3(prog, res)
     _r11_4(prog, res)
+    _r11_5(prog, res)
     res.floors["R11.3"] = 1
     res.floors["R11.4"] = 2
+    res.floors["R11.5"] = 1
     res.analysed.update({"transformation_calls": n_calls, "functions_reachable_from_format_code": len(reach)})
     return res
 
@@ -504,6 +669,39 @@ def _literal_aware(prog: Program, res: Result, tf: TextFlow, reach) -> None:
                    "line wrapping no longer applies black to statement ranges only")
 
 
+# ------------------------------------------------------------------------------------------------ R11.5
+def _r11_5(prog: Program, res: Result) -> None:
+    """Line wrapping hands each statement to black and then edits the lines of the result as TEXT (bracket-only lines are
+    glued together, deep indentation is cut, lines are split with str.splitlines); black itself strips the first string
+    of any block like a docstring and drops parentheses that carry meaning.  None of these steps knows the lines of a
+    multi-line literal.  Obligation: the new code of a statement is yielded only when a tree comparison of the
+    statement's text with the new code (both from this function) was positive."""
+    fn = prog.funcs.get(("fixes", "fix_line_lengths"))
+    if fn is None:
+        raise AnalysisError("anchor fixes.fix_line_lengths not found")
+    pa = PathAnalysis(prog, fn)
+    comparisons = []
+    for k in prog.calls_in(fn):
+        rr = prog.resolve_call(k.func, fn.mod, fn)
+        if rr and rr[0] == "fn" and len(k.args) >= 2 and _is_tree_comparison(prog, rr[1]):
+            comparisons.append(k)
+    for y in walk_own(fn.node):
+        if not (isinstance(y, ast.Yield) and isinstance(y.value, ast.Tuple) and len(y.value.elts) >= 2):
+            continue
+        new = y.value.elts[1]
+        ok = False
+        for k in comparisons:
+            mentions_new = any(isinstance(x, ast.Name) and isinstance(new, ast.Name) and x.id == new.id for x in ast.walk(k.args[1]))
+            if mentions_new and pa.holds_at(y, lambda w, k=k: pa.formula(k, w, True))[0]:
+                ok = True
+        res.decide(ok, "R11.5", fn.loc(y), fn.fq, f"{short(y, 60)} # the wrapped code of one statement",
+                   "used only when it has the same syntax tree as the statement it replaces" if ok else
+                   "the output of black and of the text steps after it (collapsing bracket-only lines, cutting deep indentation, splitlines) replaces the statement "
+                   "unchecked: lines of a multi-line string are glued / de-indented / split, the first string of a block is stripped like a docstring, "
+                   "`(A): int = 1` loses its parentheses")
+
+
+
 def _r11_4(prog: Program, res: Result) -> None:
     """formatting.indentation_level(text) is the MINIMUM indentation over all lines of the text - including the lines of a
     multi-line string literal and oddly continued brackets.  It is the right number for one purpose: to take a block apart with
@@ -546,6 +744,15 @@ def _r11_4(prog: Program, res: Result) -> None:
 from ..selftest import Variant  # noqa: E402
 
 VARIANTS = [
+    Variant("tab-expansion-unfenced-again", "FIRE", "main", "    source = _apply_layout_stage(functools.partial(str.expandtabs, tabsize=4), source)\n", "    source = source.expandtabs(4)\n", "R11.1"),
+    Variant("trailing-blanks-unfenced-again", "FIRE", "main", "    source = fixes.fix_line_lengths(source, max_line_length=max_line_length)\n    source = _apply_layout_stage(rmspace.format_str, source)\n", "    source = fixes.fix_line_lengths(source, max_line_length=max_line_length)\n    source = rmspace.format_str(source)\n", "R11.1"),
+    Variant("layout-helper-forgets-the-comparison", "FIRE", "main", "    new_source = stage(source)\n    if core.keeps_syntax_tree(source, new_source):\n        return new_source\n\n    return source\n", "    new_source = stage(source)\n    if new_source:\n        return new_source\n\n    return source\n", "R11.1"),
+    Variant("layout-helper-compares-the-input-with-itself", "FIRE", "main", "    if core.keeps_syntax_tree(source, new_source):\n        return new_source\n\n    return source\n\n\ndef format_code", "    if core.keeps_syntax_tree(source, source):\n        return new_source\n\n    return source\n\n\ndef format_code", "R11.1"),
+    Variant("blank-line-limit-returns-unchecked", "FIRE", "fixes", "    if core.keeps_syntax_tree(source, new_source):\n        return new_source\n\n    return source\n\n\n@processing.fix(max_iter=1)\ndef fix_line_lengths", "    return new_source\n\n\n@processing.fix(max_iter=1)\ndef fix_line_lengths", "R11.1"),
+    Variant("comparison-of-lengths-instead-of-trees", "FIRE", "core", "    return new_root is not None and ast.dump(old_root) == ast.dump(new_root)\n", "    return new_root is not None and len(ast.dump(old_root)) == len(ast.dump(new_root))\n", "R11.1"),
+    Variant("wrapped-statement-used-unchecked", "FIRE", "fixes", "            if not core.keeps_syntax_tree(\n                re.sub(elif_pattern, r\"\\g<1>\\g<3>\", original_code, 1),\n                re.sub(elif_pattern, r\"\\g<1>\\g<3>\", new_code, 1),\n            ):\n                continue\n\n", "", "R11.5"),
+    Variant("minimiser-result-used-unchecked", "FIRE", "processing", "    if minimized_source == new_source or core.keeps_syntax_tree(new_source, minimized_source):\n        return minimized_source, found, replaced\n\n    return new_source, found, replaced  # A whitespace-only line may be a line of a string literal\n", "    return minimized_source, found, replaced\n", "R11.1"),
+    Variant("layout-helper-with-early-exit", "SILENT", "main", "    new_source = stage(source)\n    if core.keeps_syntax_tree(source, new_source):\n        return new_source\n\n    return source\n", "    new_source = stage(source)\n    if not core.keeps_syntax_tree(source, new_source):\n        return source\n\n    return new_source\n", "R11.1"),
     Variant("statement-reindented-to-its-least-indented-line", "FIRE", "fixes",
             "        indentation = whitespace_between.rpartition(\"\\n\")[2]\n        spacing = \"\\n\" * correct_newline_count + indentation\n",
             "        level = formatting.indentation_level(whitespace_between + source[i2_start:i2_end])\n        spacing = \"\\n\" * correct_newline_count + \" \" * level\n", "R11.4"),
@@ -571,7 +778,7 @@ VARIANTS = [
     Variant("comment-removal-ignores-literals", "FIRE", "fixes", "                if any(removed_range & other for other in code_ranges):\n                    continue\n", "", "R11.1"),
     Variant("import-spacing-without-whitespace-test", "FIRE", "fixes", "        if set(whitespace_between) - set(\"\\n \"):\n            continue\n", "", "R11.1"),
     Variant("indent-amount-not-the-measured-one", "FIRE", "main", "        source = textwrap.indent(source, \" \" * minimum_indent)", "        source = textwrap.indent(source, \" \" * 4)", "R11.1"),
-    Variant("changed-regex-of-known-site", "SILENT", "fixes", "    source = re.sub(r\"(\\n\\s*){3,}\\n\", \"\\n\" * 3, source)", "    source = re.sub(r\"(\\n[ \\t]*){3,}\\n\", \"\\n\" * 3, source)"),
+    Variant("changed-regex-of-known-site", "SILENT", "fixes", "    new_source = re.sub(r\"(\\n\\s*){3,}\\n\", \"\\n\" * 3, source)", "    new_source = re.sub(r\"(\\n[ \\t]*){3,}\\n\", \"\\n\" * 3, source)"),
     Variant("regex-on-a-node-slice", "SILENT", "fixes",
             "    root = core.parse(source)\n    for node in core.walk(root, ast.If):\n        if not node.orelse:\n            continue\n        if not core.get_code(node, source).startswith(\"if\"):",
             "    root = core.parse(source)\n    for node in core.walk(root, ast.If):\n        if not node.orelse:\n            continue\n        if not re.sub(r\"^ +\", \"\", core.get_code(node, source)).startswith(\"if\"):"),
